@@ -43,6 +43,10 @@ def build(m):
         texoff = [pos[i] for i in range(len(m["textures"]))]
     else:
         for t in m["textures"]:
+            at = strings.find(t + b"\0") if m.get("share_suffix") else -1
+            if at >= 0:
+                texoff.append(at)      # stored as the tail of an earlier, longer string
+                continue
             texoff.append(len(strings)); strings += t + b"\0"
     uvoff = []
     for n, _ in m["uv_sets"]:
